@@ -24,6 +24,10 @@ def enables():
         "x>3&&y<3": ([], B("&&", B(">", X, I(3)), B("<", Y, I(3)))),
         "x>y": ([], B(">", X, Y)),
         "named-cmp": ([("decl", "Signal", "en", B(">", X, I(3)))], V("en")),
+        "cond:signal": ([], ("cond", B(">", X, I(3)), Y)),
+        "cond:-2": ([], ("cond", B(">", X, I(3)), I(-2))),
+        "cond:5": ([], ("cond", B("<=", X, I(3)), I(5))),
+        "cond:0": ([], ("cond", B(">", X, I(3)), I(0))),
         "any<3": ([("decl", "Bundle", "bb", BUN)], B("<", ("any", V("bb")), I(3))),
         "all>0": ([("decl", "Bundle", "bb", BUN)], B(">", ("all", V("bb")), I(0))),
         "any==5": ([("decl", "Bundle", "bb", BUN)], B("==", ("any", V("bb")), I(5))),
@@ -58,7 +62,7 @@ def programs(tier):
     en = enables()
     for proto in PROTOS:
         for tag, (pre, expr) in en.items():
-            if tier == "quick" and proto not in ("small-lamp", "inserter", "pump") and tag not in ("x>3", "x", "x+y>3", "all(chest)>100"):
+            if tier == "quick" and proto not in ("small-lamp", "inserter", "pump") and tag not in ("x>3", "x", "x+y>3", "all(chest)>100", "cond:signal"):
                 continue
             body = list(pre) + [("place", "e1", proto, I(10), I(20), None), ("prop", "e1", "enable", expr)]
             env = {"ch": ("steel-chest", 30, 20)} if "chest" in tag or "ch" in str(pre) else ({"tk": ("storage-tank", 30, 20)} if "tank" in tag else {})
